@@ -38,6 +38,20 @@ def new_instance(cls):
     try:
         return cls()
     except TypeError:
+        pass
+    try:
+        # the plain constructor with simple values for its mandatory arguments: constructor defaults (e.g. mutable
+        # default arguments) are part of what an application gets
+        import inspect
+        req = [p_ for n_, p_ in list(inspect.signature(cls.__init__).parameters.items())[1:]
+               if p_.default is inspect.Parameter.empty and p_.kind in (p_.POSITIONAL_ONLY, p_.POSITIONAL_OR_KEYWORD)]
+        if req and len(req) <= 3:
+            return cls(*['x1'] * len(req))
+    except Exception:  # noqa: BLE001
+        pass
+    try:
+        raise TypeError
+    except TypeError:
         from sdc11073.xml_types.basetypes import XMLTypeBase
         obj = cls.__new__(cls)
         XMLTypeBase.__init__(obj)
